@@ -165,8 +165,9 @@ type announce struct {
 	Class    string `json:"class"`
 	Port     int    `json:"port"`
 	Complete bool   `json:"complete"`
-	Upgrade  bool   `json:"upgrade"` // announced incomplete first, complete later
-	AtSec    int    `json:"at_sec"`  // seconds after the case's start
+	Upgrade  bool   `json:"upgrade"`         // announced incomplete first, complete later
+	Alias    bool   `json:"alias,omitempty"` // re-uses the peer id of an earlier entry with another address and/or port
+	AtSec    int    `json:"at_sec"`          // seconds after the case's start
 	id       core.PeerID
 }
 
@@ -199,8 +200,45 @@ func genCase(r *rand.Rand) caseSpec {
 		}
 		c.Peers = append(c.Peers, a)
 	}
+	// In half of the batches some peer ids announce from a second address and/or
+	// port (dual-stack agent, agent known by name and by address, agent on two
+	// ports): the store's identity is (peer id, address, port), so both must come back.
+	if r.Intn(2) == 0 {
+		for n := 1 + r.Intn(3); n > 0; n-- {
+			o := c.Peers[r.Intn(k)] // one of the original peers
+			a := announce{Addr: o.Addr, Class: o.Class, Port: o.Port, Complete: r.Intn(2) == 0, id: o.id, ID: o.ID, Alias: true}
+			switch r.Intn(3) {
+			case 0: // other address, same port
+				a.Addr, a.Class = genAddr(r)
+			case 1: // same address, other port
+				a.Port = genPort(r)
+			default:
+				a.Addr, a.Class = genAddr(r)
+				a.Port = genPort(r)
+			}
+			dup := false
+			for _, q := range c.Peers {
+				if q.id == a.id && q.Addr == a.Addr && q.Port == a.Port {
+					dup = true
+				}
+			}
+			if dup {
+				continue
+			}
+			if a.Complete && r.Intn(3) == 0 {
+				a.Upgrade = true
+			}
+			switch {
+			case span > 0 && r.Intn(2) == 0:
+				a.AtSec = r.Intn(span + 1) // usually another window
+			default:
+				a.AtSec = o.AtSec // same window
+			}
+			c.Peers = append(c.Peers, a)
+		}
+	}
 	sort.SliceStable(c.Peers, func(i, j int) bool { return c.Peers[i].AtSec < c.Peers[j].AtSec })
-	c.SmallN = 1 + r.Intn(k)
+	c.SmallN = 1 + r.Intn(len(c.Peers))
 	c.Hash = gen.Hex(r, 40)
 	c.ReadAtEnd = r.Intn(2) == 0
 	return c
@@ -226,7 +264,7 @@ type peerKey struct {
 func TestC28(t *testing.T) {
 	run := ev.Start(t, "C28", "exploration",
 		"PRNG-generated announce batches (1-12 peers per info hash; random 20-byte ids; IPv4, IPv6 full/compressed/IPv4-mapped, host names; "+
-			"ports 0-65535 incl. 0, 1-9, 65535; both flags; a third of the complete peers announce incomplete first) over window sizes 1 s-1 h and 1-5 windows, "+
+			"ports 0-65535 incl. 0, 1-9, 65535; both flags; a third of the complete peers announce incomplete first; in half of the batches 1-3 peer ids announce again from another address and/or port, in the same or another window) over window sizes 1 s-1 h and 1-5 windows, "+
 			"announces spread across the look-back range. A case is non-trivial when GetPeers(big) returned without error and at least one peer was announced; "+
 			"distinct = distinct (config, peer batch).")
 	defer run.Finish()
@@ -328,6 +366,9 @@ func worker(t *testing.T, run *ev.Run, wid, nPeers int) {
 			want[peerKey{a.id, a.Addr, a.Port}] = a
 			announced++
 			run.Count("announces_"+a.Class, 1)
+			if a.Alias {
+				run.Count("announces_reusing_a_peer_id_with_other_address_or_port", 1)
+			}
 		}
 		// read at the end of the look-back range: the last second in which
 		// the first window is still consulted
@@ -359,7 +400,18 @@ func worker(t *testing.T, run *ev.Run, wid, nPeers int) {
 			if !seen[k] {
 				// is there an entry with the same peer id but other fields? then
 				// checkReturned has reported the mangled field already
-				run.Violation("announced-peer-not-returned/"+family(a.Class), caseID,
+				sig := "announced-peer-not-returned/" + family(a.Class)
+				shared := 0
+				for k2 := range want {
+					if k2.id == k.id {
+						shared++
+					}
+				}
+				if shared > 1 && family(a.Class) != "ipv6" {
+					// the id announced from several addresses / ports and this one is gone
+					sig = "announced-peer-not-returned/peer-id-shared-by-several-addresses"
+				}
+				run.Violation(sig, caseID,
 					map[string]interface{}{"case": spec, "missing": a, "returned": render(got)})
 			} else {
 				run.Count("roundtrips_ok_"+a.Class, 1)
